@@ -1253,6 +1253,10 @@ func stateAnyCommentStart(s *Scanner, c byte) state {
 		// any symbol inline user comment
 		s.annotation = annotationNone
 		s.step = stateInlineComment
+		if bytes.IsNewLine(c) {
+			// An empty comment. The new line ends it.
+			return s.step(s, c)
+		}
 		return scanContinue
 	} else if s.data.Byte(s.index) == '#' { // third #
 		s.annotation = annotationNone
